@@ -325,6 +325,8 @@ def work(ctx, tier):
         run_shared(ctx, spec, rng, viol)
         if k < 1 and ctx.shard == 0:
             ctx.sample({"shared_budget_workload": spec})
+    if tier != "quick":
+        common.repo_suite_under_monitors(ctx, "budget")
 
 
 def conclude(ctx):
